@@ -63,7 +63,7 @@ class AddTrait(Contract):
             def apply(I3, a, kw, s, kk):
                 r = VRef(I3.cx.new_oid())
                 lst = z3.Function("notifier_list", Val, SeqV)(o.t)
-                return kk(r, s.put(r.oid, HObj("list", lst)).gset("nl_owner", dict(s.ghost.get("nl_owner", {}), **{r.oid: o.t})))
+                return kk(r, s.put(r.oid, HObj("list", lst)).gset("nl_owner", {**s.ghost.get("nl_owner", {}), r.oid: o.t}))
             return k(VFunc("opaque", name="_notifiers", apply=apply), st)
         cx.elem_attrs["_notifiers"] = notifiers_attr
 
